@@ -33,6 +33,7 @@ func rulesC06(c *Ctx) {
 		"NOT decided: correctness of the lone-node computation for all candidate-root histories, resurrection through versioned keys, concurrent readers, identical answers of both backends for all histories.")
 	c06Discard(c)
 	c06Round2(c, c.P.BuildIndex())
+	c06Borrowed(c)
 	const rule = "C06.guard"
 	api := "storage/mkvs/db/api."
 	for _, pk := range []string{"badger", "pathbadger"} {
@@ -428,4 +429,51 @@ func c06Round2(c *Ctx, ix *Index) {
 		}
 		c.GuardedByAny("C06.keepn", fn, "latestVersion >= keepN", []string{`^param:latestVersion >= \*param:p\.keepN$`}, Ev{Name: "latestVersion - keepN", Fn: fn, Ins: subs}, "on a chain younger than keepN the unsigned subtraction would wrap and every version but the latest would be pruned")
 	}
+}
+
+// c06Borrowed: what the node databases hand out must not alias badger's
+// buffers. The bytes passed to an (*Item).Value callback are only valid inside
+// the callback; a node, key or value built from them that keeps a sub-slice
+// reads whatever badger puts there later (a retained root then returns
+// contents that do not hash to it).
+func c06Borrowed(c *Ctx) {
+	const rule = "C06.borrowed"
+	b := newBorrow(c.P)
+	n := 0
+	for _, pk := range []string{"storage/mkvs/db/badger", "storage/mkvs/db/pathbadger"} {
+		for _, fn := range c.P.FuncsInPkg(pk) {
+			if strings.HasPrefix(fn.Name(), "migrate") || strings.Contains(fname(fn), "igrat") {
+				continue
+			}
+			for _, call := range callsIn(fn) {
+				if calleeName(call) != "github.com/dgraph-io/badger/v4.(*Item).Value" {
+					continue
+				}
+				a := allArgs(call)
+				var cb *ssa.Function
+				switch x := a[1].(type) {
+				case *ssa.MakeClosure:
+					cb, _ = x.Fn.(*ssa.Function)
+				case *ssa.Function:
+					cb = x
+				}
+				inst := fname(fn) + ":Item.Value callback"
+				if cb == nil {
+					c.Undecided(rule, inst, c.P.InstrPos(call), "the callback is not a function literal")
+					continue
+				}
+				n++
+				c.Analysed[fname(fn)] = true
+				inst = fname(cb) + ":value bytes do not outlive the callback"
+				res := &borrowRes{}
+				b.from(cb, cb.Params[0], res)
+				if res.escape != nil {
+					c.Fail(rule, inst, c.P.InstrPos(res.escape), "the bytes badger lends to the callback are "+res.why+" without being copied: they are only valid inside the callback, so what is built from them changes under the reader when badger reuses the memory")
+				} else {
+					c.OK(rule, inst, c.P.InstrPos(call), "every alias of the callback's bytes is consumed (decoded by copying, compared) inside the callback")
+				}
+			}
+		}
+	}
+	c.Floor(rule, n, 12, "Item.Value callbacks in the node databases")
 }
